@@ -259,6 +259,14 @@ def run_cases(cases, timeout=900):
 def handle_abort(ck, case, res, sources):
     """a runner process died or hung inside this case: find the input by re-running its compiles alone"""
     cid = case["id"]
+    if res["abort"].get("why") == "not-run":
+        return
+    isolated = getattr(ck, "_aborts_isolated", 0)
+    if isolated >= 4:
+        # enough witnesses: do not spend a watchdog period on every further dying input of a tree that is broken anyway
+        ck.count("aborting_cases_not_isolated")
+        return
+    ck._aborts_isolated = isolated + 1
     singles = []
     if case["steps"][0][0] == "prefixes":
         src = case["steps"][0][1]
@@ -272,13 +280,14 @@ def handle_abort(ck, case, res, sources):
     out = common.run_batch("hook", sub, timeout=120)
     found = False
     for c, r in zip(sub, out):
-        if "abort" in r:
+        if "abort" in r and r["abort"].get("why") != "not-run":
             again = common.confirm_abort("hook", c, timeout=300)
             if all("abort" in a for a in again):
                 found = True
                 why = r["abort"]["why"]
                 ck.violation("CompileAbort(%s)" % why, {"kind": "compile", "source": c["steps"][0][1],
                                                          "problem": "runner %s: %s" % (why, r["abort"]["status"])})
+                break   # one confirmed input per dying case is the witness; the others are usually the same defect
     if not found:
         ck.inconclusive.append("runner died in %s (%s) but no single input reproduces it" % (cid, res["abort"]))
 
